@@ -22,7 +22,7 @@ RULE = ("one evaluation = one seeded interleaving (<= 50 operations) of per-leve
 STATE_MEASURE = "distinct (depth, bitmask of levels edited since last refresh, hidden-exclusion count>0, cache-populated bitmask) tuples; actor sequences are part of the digest"
 PROBES = ["hidden_exclusion_came_back", "hidden_exclusion_present", "cache_populated_before_refresh", "temp_feature_on_child",
           "temp_feature_on_root", "root_config_changed", "depth_3_or_more", "manual_on_mid_level", "ancestor_filter_changed_after_manual",
-          "child_created_mid_history", "root_apply_without_refresh", "empty_child", "file_backed"]
+          "child_created_mid_history", "root_apply_without_refresh", "empty_child", "file_backed", "root_selection_moved_same_count"]
 COMPONENTS = {"real": ["dclab RTDC_Hierarchy, HierarchyFilter, index mappers, Child* feature wrappers", "dclab Filter, temporary features, ancillary features (time, area_um, deform)"],
               "stub": ["thread of control of the per-level owners (cooperative actors chosen by the seeded scheduler)", "wall clock", "identity sources"]}
 ASSUMPTIONS = [
@@ -135,9 +135,12 @@ class World:
             return {"k": "rm_range", "lv": lv, "feat": r.choice(RANGE_FEATS)}
         if x < 0.32:
             return {"k": "poly", "lv": lv, "dseed": r.randrange(1 << 30), "inverted": r.random() < 0.3}
-        if x < 0.46:
+        if x < 0.40:
             cnt = r.choice([1, 1, 2, 4])
             return {"k": "manual", "lv": lv, "idx": [r.randrange(1 << 20) for _ in range(cnt)]}
+        if x < 0.46:
+            # the root selects other events, but equally many (a plain dataset: re-inclusion is ordinary there)
+            return {"k": "rootswap", "a": r.randrange(1 << 20), "b": r.randrange(1 << 20)}
         if x < 0.58:
             return {"k": "read", "lv": lv, "feat": r.choice(["area_cvx", "bright_avg", "time", "area_um", "deform", "image", "mask", "contour", "trace", "tmp_c04", "index"])}
         if x < 0.64:
@@ -200,6 +203,20 @@ class World:
             self.edited |= 1 << lv
             self.pending_manual |= 1 << lv
             ctx.log(f"L{lv}", "manual", seeds.short_hash(idx))
+        elif k == "rootswap":
+            root = self.levels[0]
+            man = np.array(root.filter.manual, dtype=bool)
+            inc, exc = np.flatnonzero(man), np.flatnonzero(~man)
+            if len(inc) == 0:
+                return
+            if len(exc) == 0:
+                root.filter.manual[int(inc[op["a"] % len(inc)])] = False
+            else:
+                root.filter.manual[int(inc[op["a"] % len(inc)])] = False
+                root.filter.manual[int(exc[op["b"] % len(exc)])] = True
+                ctx.probe("root_selection_moved_same_count")
+            self.edited |= 1
+            ctx.log("L0", "rootswap")
         elif k == "read":
             f = op["feat"]
             with warnings.catch_warnings():
